@@ -120,6 +120,12 @@ func run(t *testing.T, c elliptic.Curve) {
 		b1, b2 := blindBytes(t, c, "blind1"), blindBytes(t, c, "blind2")
 		ctx := context(t, "ctx")
 		digest := gen.Digest(t, "digest")
+		switch gen.Uniform(t, 8, "secondBlindRelated") {
+		case 0:
+			b2 = append(append([]byte{}, b1...), 0) // b1 * 256
+		case 1:
+			b2 = new(big.Int).Add(new(big.Int).SetBytes(b1), c.Params().N).Bytes() // b1 + N
+		}
 		bk1, bk2 := key(t, c, b1), key(t, c, b2)
 		if gen.Uniform(t, 5, "blindKeyObjectOfAnotherCurve") == 0 {
 			// the blind is a scalar in a key OBJECT; the curve of the operation is the curve ARGUMENT. An object made by
@@ -195,6 +201,31 @@ func run(t *testing.T, c elliptic.Curve) {
 		if patecdsa.Verify(&sk.PublicKey, digest, r, sv) || stdecdsa.Verify(&stdecdsa.PublicKey{Curve: c, X: sk.X, Y: sk.Y}, digest, r, sv) {
 			fail("sign-verifies-unblinded", "blind-key signature verifies under the UNBLINDED public key")
 			return
+		}
+		// 2b. right afterwards the NEGATED signing key N-d (same X, other Y) with the same blind and context: its own blinded
+		// key, its own signature (anything remembered per public key must look at the whole key)
+		if gen.Uniform(t, 3, "negatedSignerNext") == 0 {
+			dNeg := new(big.Int).Sub(c.Params().N, new(big.Int).Mod(sk.D, c.Params().N))
+			if dNeg.Sign() > 0 && dNeg.Cmp(c.Params().N) < 0 {
+				skNeg := key(t, c, dNeg.Bytes())
+				bpkNeg, err := patecdsa.BlindPublicKeyWithContext(c, &skNeg.PublicKey, bk1, ctx)
+				nx, ny := ref.ECDSABlindPublicKey(c, skNeg.X, skNeg.Y, D1, ctx)
+				if err != nil || !samePoint(bpkNeg, nx, ny) {
+					fail("blind-value", "blinded key of the negated signing key differs from the reference (%v)", err)
+					return
+				}
+				rn, sn, err := patecdsa.BlindKeySignWithContext(rt.NewDRBG(gen.Seed().Draw(t, "entropyNeg")), skNeg, bk1, digest, ctx)
+				if err != nil || !stdecdsa.Verify(&stdecdsa.PublicKey{Curve: c, X: nx, Y: ny}, digest, rn, sn) {
+					fail("sign-verify-std", "blind-key signature by the negated signing key N-d, made right after one by d with the same blind and context, does not verify under ITS blinded public key (%v)", err)
+					return
+				}
+				backNeg, err := patecdsa.UnblindPublicKeyWithContext(c, bpkNeg, bk1, ctx)
+				if err != nil || !samePoint(backNeg, skNeg.X, skNeg.Y) {
+					fail("unblind", "Unblind(Blind(-pk)) != -pk right after the same operations on pk (%v)", err)
+					return
+				}
+				s.Class("negated-signer-next")
+			}
 		}
 		// 3. unblinding inverts blinding
 		back, err := patecdsa.UnblindPublicKeyWithContext(c, bpk, bk1, ctx)
